@@ -67,7 +67,9 @@ fn split_lock(name: &str) -> (&str, &str) {
 
 fn op_class(op: &str) -> &str {
     match op.split(':').next().unwrap_or(op) {
-        "kadd" | "kdel" | "kset" => "cond",
+        // "okc": an accepted command whose pre-save listener may meet an
+        // injected storage failure - the outcome is left open
+        "kadd" | "kdel" | "kset" | "okc" => "cond",
         other => other,
     }
 }
